@@ -67,6 +67,10 @@ def tasks(tier, seed):
         for d in (1, 2, 3):
             if d < len(st_):
                 T.append(('stencil', d, None, None, {'dtype': dt_, 'steps': st_}))
+    # widely spaced offsets with higher derivatives: the exact weights are tiny (they scale like spacing ** -derivative) and must still be delivered
+    for d, st_ in ((4, [-1000, -500, 0, 500, 1000]), (4, [-900, -300, 0, 500, 700]), (3, [-2000, -1000, 0, 1000]), (2, [-100000, 0, 300000]), (1, [-10**7, 0, 10**7]), (3, [-400, -100, 0, 100, 400]), (4, [0, 250, 500, 750, 1000, 1250])):
+        T.append(('stencil', d, None, None, st_))
+    T.append(('periodic', 4, None, None, [-1000, -500, 0, 500, 1000]))
     T.append(('periodic', 2, None, None, {'dtype': 'int8', 'steps': [-3, -2, -1, 0, 1, 2, 3]}))
     T.append(('periodic', 1, None, None, {'dtype': 'int16', 'steps': [-4, -3, -2, -1, 0, 1, 2, 3, 4]}))
     for d, order in ([(1, 2), (2, 2), (2, 4), (1, 4), (3, 2)] if quick else [(1, 2), (2, 2), (2, 4), (1, 4), (3, 2), (4, 2), (2, 6), (1, 6), (3, 4)]):
